@@ -178,8 +178,17 @@ def corr_uniform(ctx, scale):
                 L, tof, em, rc, pts = b
                 flat = [L, tof] + em + rc + [x for p in pts for x in p]
                 sc = 1.0 + max(abs(x) for x in cfg["from"] + cfg["to"])
+                # a first / last leg whose length is at the rounding level of the coordinates (end point on the boundary it
+                # reflects from: the open known finding) has no direction: normalize() of rounding noise; model and
+                # implementation legitimately differ there (libm), so the direction of such a leg is not compared
+                skip = set()
+                if len(pts) > 2:
+                    if _first_leg(pts) <= 64 * U.EPS * sc:
+                        skip |= {2, 3, 4}
+                    if _last_leg(pts) <= 64 * U.EPS * sc:
+                        skip |= {5, 6, 7}
                 ok = isinstance(r, tuple) and len(r) == len(flat) and all(
-                    close(x, y, 1e-11, 1e-11 * (sc if i >= 8 else 1.0) if i != 1 else 1e-20) for i, (x, y) in enumerate(zip(r, flat)))
+                    i in skip or close(x, y, 1e-11, 1e-11 * (sc if i >= 8 else 1.0) if i != 1 else 1e-20) for i, (x, y) in enumerate(zip(r, flat)))
                 detail = "path quantities for (theta0, reflections)=%r: impl=%r model=%r" % (a, flat, r)
             ctx.case(key=("path", json.dumps(cfg, sort_keys=True), a), nontrivial=a[1] > 0)
         if not ok:
@@ -528,6 +537,13 @@ def probe_split_uniform(ctx, cfg, cuts):
     for us, e in zip(usols, exp):
         if e["degenerate"] or e["zero_span"] or e["emitted"] is None:
             continue
+        if cfg["from"][:2] == cfg["to"][:2] and e["length"] * 1.2246467991473532e-16 >= 0.8e-12:
+            # exactly vertical ray with more than ~6.5 km of vertical travel: the layered tracer launches it downward at the angle
+            # pi, whose tangent is -1.2246e-16 instead of 0; the summed radial distance |tan(pi)| x travel then reaches the
+            # tracer's zero tolerance 1e-12 m (distance() in LayeredRayTracer.solutions) and the root is not recognised.
+            # Rounding artefact of a degenerate input (design_notes/C02.md, round 4): not judged, counted.
+            ctx.extra["split_uniform_skipped_vertical_long"] = ctx.extra.get("split_uniform_skipped_vertical_long", 0) + 1
+            continue
         # sensitivity of the layered root: L = S / cos(zenith), r = S tan(zenith)
         cz = max(abs(e["emitted"][2]), 1e-9)
         S = abs(e["image_z"] - cfg["from"][2])
@@ -557,6 +573,8 @@ def probe_split_uniform(ctx, cfg, cuts):
                 e["k"], e["d"], uf, npth, fr), solution=[e["k"], e["d"]])
     for j, (L, tof, em, rc, fr, npth) in enumerate(split_data):
         if j not in matched and exp and not any(e["degenerate"] or e["zero_span"] or e["emitted"] is None for e in exp):
+            if cfg["from"][:2] == cfg["to"][:2] and L * 1.2246467991473532e-16 >= 0.8e-12:
+                continue      # exactly vertical, long: may be the counterpart of an unsplit solution that was not judged (see above)
             if abs(complex(fr[0])) > 1e-7 or abs(complex(fr[1])) > 1e-7:
                 fail("extra: split solution %d (length %r, %d sections, Fresnel %r) has no unsplit counterpart and non-zero amplitude" % (j, L, npth, fr), solution=j)
     return len(lsols)
